@@ -138,6 +138,8 @@ func init() {
 					}
 					if r.chance(0.7) {
 						b["applyProbability"] = probGrid[r.Intn(len(probGrid))]
+					} else if r.chance(0.15) {
+						b["applyProbability"] = nil
 					}
 					bl = append(bl, b)
 				}
@@ -199,6 +201,8 @@ func init() {
 					}
 					if r.chance(0.5) {
 						b.(J)["applyProbability"] = probGrid[r.Intn(len(probGrid))]
+					} else if r.chance(0.08) {
+						b.(J)["applyProbability"] = nil // present but null: the default (1) applies
 					}
 				}
 				if r.chance(0.3) {
